@@ -1400,9 +1400,13 @@ theorem mem_framesOfX (xs : List FOperand) (f : RFrame) : f ∈ framesOfX xs ↔
 Series and frames with several columns each, at least one frame, is the frame on the joint index of all timeseries with
 the joint header of the FRAMES (`aggCols`: common columns under `'ij'`, all under `'oj'`, …, sorted) whose cell `(t, c)`
 is the LEFT fold of `np.minimum / np.maximum` (`MM.appO`: NaN propagates) over what the operands show there (`cellM`: a
-frame its cell after `_df_reindex(·, m)`, NaN without the column; a Series its value in every column; a scalar itself) -/
+frame its cell after `_df_reindex(·, m)`, NaN without the column; a Series its value in every column; a scalar itself).
+Hypothesis `hc`: more than one joint column, or no Series operand - a frame that `df_sync` leaves with exactly ONE column
+is turned into a Series by `_align_columns` when it meets a Series (`as_series`), and the result then is a Series with
+the same values (modelled and sampled; the `#guard` below shows it). -/
 theorem mmF_value (k : MM) (how : How) (m : Option Dir) (ch : ColHow) (x : FOperand) (xs : List FOperand) (f : RFrame) (fs : List RFrame)
-    (hf : framesOfX (x :: xs) = f :: fs) (hd : ∀ g, FOperand.df g ∈ x :: xs → g.cols.length > 1) :
+    (hf : framesOfX (x :: xs) = f :: fs) (hd : ∀ g, FOperand.df g ∈ x :: xs → g.cols.length > 1)
+    (hc : (aggCols ch f fs).length ≠ 1 ∨ ∀ s, FOperand.ts s ∉ x :: xs) :
     ∃ ix, joinIndex how (indexesOfF (x :: xs)) = some ix ∧
       mmListF k how m ch (x :: xs) [] =
         some (.df { idx := ix, cols := (aggCols ch f fs).map fun c =>
@@ -1429,7 +1433,22 @@ theorem mmF_value (k : MM) (how : How) (m : Option Dir) (ch : ColHow) (x : FOper
     exact recolX_alignF (aggCols ch f fs) ix m y (fun g e => hd g (by simp [← e, hy]))
   simp only [reducerF]
   rw [hx, hxs, foldl_mmKernelF k ix (aggCols ch f fs) _ _ _ (constF_cellM m x)
-    (by intro y hy; simp only [List.mem_map] at hy; obtain ⟨z, _, rfl⟩ := hy; exact constF_cellM m z)]
+    (by intro y hy; simp only [List.mem_map] at hy; obtain ⟨z, _, rfl⟩ := hy; exact constF_cellM m z)
+    (by
+      rcases hc with h | h
+      · exact .inl h
+      · refine .inr ⟨?_, ?_⟩
+        · cases x with
+          | ts s => exact absurd (List.mem_cons_self) (h s)
+          | num q => simp [rankF]
+          | df g => simp [rankF]
+        · intro y hy
+          simp only [List.mem_map] at hy
+          obtain ⟨z, hz, rfl⟩ := hy
+          cases z with
+          | ts s => exact absurd (List.mem_cons_of_mem _ hz) (h s)
+          | num q => simp [rankF]
+          | df g => simp [rankF])]
   have hr : 2 ≤ (xs.map fun y => (rankF y, fun c t => cellM m c t y)).foldl (fun r y => max r y.1) (rankF x) := by
     rcases List.mem_cons.mp hfm with e | hmem
     · rw [← e]; exact rank_fold_ge _ _
@@ -1445,7 +1464,7 @@ theorem mmF_two (k : MM) (how : How) (m : Option Dir) (ch : ColHow) (a b : RFram
         some (.df { idx := ix, cols := (aggCols ch a [b]).map fun c =>
                       (c, ix.map fun t => k.appO (cellD Option.none a m c t) (cellD Option.none b m c t)) }) := by
   obtain ⟨ix, h1, h2⟩ := mmF_value k how m ch (.df a) [.df b] a [b] rfl
-    (by intro g hg; simp at hg; rcases hg with rfl | rfl <;> assumption)
+    (by intro g hg; simp at hg; rcases hg with rfl | rfl <;> assumption) (.inr (by simp))
   refine ⟨ix, h1, ?_⟩
   have : mmListF k how m ch [.df a] [.df b] = mmListF k how m ch [.df a, .df b] [] := rfl
   rw [this, h2]
@@ -1457,13 +1476,18 @@ theorem mmF_columns_lj (f : RFrame) (fs : List RFrame) (c : String) : c ∈ aggC
   simp [aggCols, colsJoin, mem_sortS]
 
 /-- a frame against a Series / a scalar: broadcast to every cell -/
-theorem mmF_frame_series (k : MM) (how : How) (m : Option Dir) (ch : ColHow) (a : RFrame) (s : RSeries) (ha : a.cols.length > 1) :
+theorem mmF_frame_series (k : MM) (how : How) (m : Option Dir) (ch : ColHow) (a : RFrame) (s : RSeries) (ha : a.cols.length > 1)
+    (hn : a.names.Nodup) :
     ∃ ix, joinIndex how [a.idx, s.idx] = some ix ∧
       mmListF k how m ch [.df a] [.ts s] =
         some (.df { idx := ix, cols := (aggCols ch a []).map fun c =>
                       (c, ix.map fun t => k.appO (cellD Option.none a m c t) (lookR s m t)) }) := by
+  have hlen : (aggCols ch a []).length ≠ 1 := by
+    have hs : aggCols ch a [] = sortS a.names := by cases ch <;> rfl
+    rw [hs, sortS_length a.names hn]
+    simp only [RFrame.names, List.length_map]; omega
   obtain ⟨ix, h1, h2⟩ := mmF_value k how m ch (.df a) [.ts s] a [] rfl
-    (by intro g hg; simp at hg; rcases hg with rfl; assumption)
+    (by intro g hg; simp at hg; rcases hg with rfl; assumption) (.inl hlen)
   refine ⟨ix, h1, ?_⟩
   have : mmListF k how m ch [.df a] [.ts s] = mmListF k how m ch [.df a, .ts s] [] := rfl
   rw [this, h2]
